@@ -170,7 +170,8 @@ func (s *Store[H]) Stop(ctx context.Context) error {
 	return s.metrics.Close()
 }
 
-// Sync ensures all pending writes are synchronized. It blocks until the operation completes or fails.
+// Sync ensures all pending writes are synchronized, i.e. processed and written to the datastore.
+// It blocks until the operation completes or fails.
 func (s *Store[H]) Sync(ctx context.Context) error {
 	waitCh := make(chan struct{})
 	select {
@@ -511,6 +512,10 @@ func (s *Store[H]) flushLoop(ctx context.Context) {
 				default:
 				}
 
+				// write the pending batch out even if it is not full: a caller of Sync (DeleteRange)
+				// relies on everything appended so far being in the datastore, e.g. for the head and
+				// tail pointers it persists to refer to a chain that is contiguous there
+				flush(nil)
 				close(dn)
 				break
 			}
